@@ -52,7 +52,7 @@ func mergeAccumulates(c *Ctx) {
 		additive bool
 	}
 	var upds []upd
-	for _, l := range c.P.FindLifted(fn, func(in ssa.Instruction) bool {
+	for _, l := range c.P.FindLiftedAll(fn, func(in ssa.Instruction) bool {
 		st, ok := in.(*ssa.Store)
 		if !ok {
 			return false
@@ -142,20 +142,32 @@ func mergeAccumulates(c *Ctx) {
 // left only through its header — every element of what the loop walks over is asked. Exits towards a
 // panic do not count.
 func everyElementAsked(c *Ctx, fn *ssa.Function, m Matcher, what, consequence string) {
-	calls := CallsIn(fn, m)
-	if len(calls) == 0 {
-		c.Undecided("loop:"+FuncName(fn)+":"+what+":none", fn.Pos(), "%s no longer calls %s in its own body", FuncName(fn), what)
+	found := c.P.FindLiftedAll(fn, CallSel(m))
+	if len(found) == 0 {
+		c.Undecided("loop:"+FuncName(fn)+":"+what+":none", fn.Pos(), "%s no longer calls %s (directly or through a helper)", FuncName(fn), what)
 		return
 	}
-	for _, call := range calls {
-		in := call.(ssa.Instruction)
-		l := InnermostLoop(in.Block())
+	for _, lf := range found {
+		// the level at which the call is repeated: the call itself, or the call of the helper it sits in
+		chain := []ssa.Instruction{lf.In}
+		for i := len(lf.Via) - 1; i >= 0; i-- {
+			chain = append(chain, lf.Via[i].(ssa.Instruction))
+		}
+		var in ssa.Instruction
+		var l *Loop
+		for _, x := range chain {
+			if lp := InnermostLoop(x.Block()); lp != nil {
+				in, l = x, lp
+				break
+			}
+		}
 		if l == nil {
-			c.Undecided("loop:"+FuncName(fn)+":"+what+":no-loop", in.Pos(), "%s calls %s outside a loop", FuncName(fn), what)
+			c.Undecided("loop:"+FuncName(fn)+":"+what+":no-loop", lf.In.Pos(), "%s calls %s outside a loop", FuncName(fn), what)
 			continue
 		}
+		host := FuncName(in.Parent())
 		if _, every := EveryIteration(in); !every {
-			c.Violation("loop:"+FuncName(fn)+":"+what+":skipped", in.Pos(), "%s does not call %s on every iteration of its loop: %s", FuncName(fn), what, consequence)
+			c.Violation("loop:"+FuncName(fn)+":"+what+":skipped", in.Pos(), "%s does not call %s on every iteration of its loop: %s", host, what, consequence)
 			continue
 		}
 		bad := 0
@@ -164,10 +176,10 @@ func everyElementAsked(c *Ctx, fn *ssa.Function, m Matcher, what, consequence st
 				continue
 			}
 			bad++
-			c.Violation("loop:"+FuncName(fn)+":"+what+":early-exit", blockPos(e[0], in.Pos()), "%s leaves the loop over its elements before the last one: the remaining ones are never given to %s — %s", FuncName(fn), what, consequence)
+			c.Violation("loop:"+FuncName(fn)+":"+what+":early-exit", blockPos(e[0], in.Pos()), "%s leaves the loop over its elements before the last one: the remaining ones are never given to %s — %s", host, what, consequence)
 		}
 		if bad == 0 {
-			c.Site(in.Pos(), "%s calls %s for every element (the loop has no early exit)", FuncName(fn), what)
+			c.Site(in.Pos(), "%s calls %s for every element (the loop has no early exit)", host, what)
 		}
 	}
 }
@@ -206,9 +218,10 @@ func blockPos(b *ssa.BasicBlock, dflt token.Pos) token.Pos {
 
 // sameQuestionForEveryFraction (C05.12): between the iterations of Searcher.SearchDocs only the limit of the
 // request changes. Every field store into a SearchParams value of SearchDocs (the spilled parameter or a copy)
-// is a store to Limit — the only field whose per-iteration value is justified by what has been found so far
-// (calcEnsuredIDsCount). Narrowing From/To, the query, the order or the aggregation between iterations makes
-// the answer depend on how many fractions one iteration takes.
+// is a store to Limit — whose per-iteration value is justified by what has been found so far
+// (calcEnsuredIDsCount) — or narrows From / To to a timestamp as it is (inclusive). A bound computed with +1 / -1
+// steps past the millisecond of the last id found, and a change of the query, the order or the aggregation
+// between iterations makes the answer depend on how many fractions one iteration takes.
 func sameQuestionForEveryFraction(c *Ctx) {
 	fn := c.Fn("(*fracmanager.Searcher).SearchDocs")
 	if fn == nil {
@@ -231,6 +244,35 @@ func sameQuestionForEveryFraction(c *Ctx) {
 					continue
 				}
 				n++
+				if fld == "From" || fld == "To" {
+					// cutting the range at the last id found so far is sound while the cut is inclusive: ids that tie with
+					// it on the millisecond can still displace it. A cut computed with +1 / -1 excludes them.
+					exclusive := false
+					for _, o := range c.P.Origins(st.Val, nil, 2, nil) {
+						if DerivesFromStop(o.Val, func(v ssa.Value) bool {
+							bo, ok := v.(*ssa.BinOp)
+							if !ok || !(bo.Op == token.ADD || bo.Op == token.SUB) {
+								return false
+							}
+							_, kx := ConstInt(bo.X)
+							_, ky := ConstInt(bo.Y)
+							return kx || ky
+						}, func(v ssa.Value) bool {
+							// the position an id is read from (ids[limit-1]) is not arithmetic on the timestamp
+							switch v.(type) {
+							case *ssa.IndexAddr, *ssa.Index, *ssa.Lookup:
+								return true
+							}
+							return false
+						}) {
+							exclusive = true
+						}
+					}
+					if !exclusive {
+						c.Site(st.Pos(), "SearchDocs narrows %s between iterations without stepping past a timestamp", fld)
+						continue
+					}
+				}
 				if fld == "Limit" {
 					c.Site(st.Pos(), "SearchDocs adjusts the limit of the request between iterations")
 				} else {
@@ -298,4 +340,688 @@ func answersFromCurrentFraction(c *Ctx) {
 			}
 		}
 	}
+}
+
+// onlySnapshotLIDs (C07.13): a search on an active fraction works on the ids it took a snapshot of. Every
+// element of what frac.inverseLIDs returns has gone through inverser.Inverse of that snapshot (the token's
+// list is read later than the snapshot and may hold newer documents, which Inverse does not know): every
+// append that builds a returned slice — in inverseLIDs or in a helper it returns the result of — appends a
+// value derived from the Inverse call.
+func onlySnapshotLIDs(c *Ctx) {
+	fn := c.Fn("frac.inverseLIDs")
+	if fn == nil {
+		return
+	}
+	isInverse := func(v ssa.Value) bool {
+		cl, ok := v.(ssa.CallInstruction)
+		return ok && CallName(cl) == "(*frac.inverser).Inverse"
+	}
+	n := 0
+	for _, b := range fn.Blocks {
+		ret, ok := b.Instrs[len(b.Instrs)-1].(*ssa.Return)
+		if !ok || len(ret.Results) == 0 {
+			continue
+		}
+		for _, o := range c.P.Origins(ret.Results[0], nil, 3, nil) {
+			var apps []ssa.CallInstruction
+			seenApp := map[ssa.CallInstruction]bool{}
+			DerivesFrom(o.Val, func(v ssa.Value) bool {
+				if cl, ok := v.(ssa.CallInstruction); ok && CallName(cl) == "builtin.append" && !seenApp[cl] {
+					seenApp[cl] = true
+					apps = append(apps, cl)
+				}
+				return false
+			})
+			for _, ap := range apps {
+				args := ap.Common().Args
+				if len(args) < 2 {
+					continue
+				}
+				n++
+				if DerivesFrom(args[1], isInverse) {
+					c.Site(ap.Pos(), "inverseLIDs returns positions that inverser.Inverse produced")
+				} else {
+					c.Violation("prov:inverseLIDs:not-from-snapshot", ap.Pos(), "a list returned by frac.inverseLIDs is filled with %s, which does not come from inverser.Inverse: the token's list is read after the search took its snapshot of the ids, so a shortcut that infers the positions from the list's length and ends lets documents indexed in between stand in for documents of the snapshot that do not carry the token", Short(args[1].String()))
+				}
+			}
+		}
+	}
+	if n == 0 {
+		c.Undecided("prov:inverseLIDs:no-append", fn.Pos(), "frac.inverseLIDs no longer builds its result by appending")
+	}
+}
+
+// chanRecvBehind: a channel receive in the derivation of v — through the elements appended to a slice v is
+// built from and through the results of the repo functions v comes from (to the given depth). The order of
+// what comes out of a channel filled by several goroutines is the order in which they finished.
+func chanRecvBehind(p *Prog, v ssa.Value, depth int, seen map[ssa.Value]bool) ssa.Instruction {
+	if v == nil || seen[v] {
+		return nil
+	}
+	seen[v] = true
+	var found ssa.Instruction
+	var calls []ssa.CallInstruction
+	DerivesFrom(v, func(x ssa.Value) bool {
+		switch y := x.(type) {
+		case *ssa.UnOp:
+			if y.Op == token.ARROW {
+				found = y
+				return true
+			}
+		case *ssa.Select:
+			found = y
+			return true
+		case *ssa.Next:
+			// range over a channel is lowered to a receive; range over a map to Next: map order is random too
+			if !y.IsString {
+				found = y
+				return true
+			}
+		case ssa.CallInstruction:
+			calls = append(calls, y)
+		}
+		return false
+	})
+	if found != nil || depth == 0 {
+		return found
+	}
+	for _, cl := range calls {
+		h := StaticCallee(cl)
+		if h == nil || h.Blocks == nil || !p.InRepo(h) {
+			continue
+		}
+		for _, b := range h.Blocks {
+			if ret, ok := b.Instrs[len(b.Instrs)-1].(*ssa.Return); ok {
+				for _, r := range ret.Results {
+					if _, isSlice := r.Type().Underlying().(*types.Slice); !isSlice {
+						continue
+					}
+					if in := chanRecvBehind(p, r, depth-1, seen); in != nil {
+						return in
+					}
+				}
+			}
+		}
+	}
+	return nil
+}
+
+// loadKeepsNameOrder (C15.10): the fraction lists loader.load returns are in the order of the sorted file
+// names — nothing in their derivation comes out of a channel (or a map iteration).
+func loadKeepsNameOrder(c *Ctx) {
+	fn := c.Fn("(*fracmanager.loader).load")
+	if fn == nil {
+		return
+	}
+	for _, b := range fn.Blocks {
+		ret, ok := b.Instrs[len(b.Instrs)-1].(*ssa.Return)
+		if !ok {
+			continue
+		}
+		for i, r := range ret.Results {
+			if _, isSlice := r.Type().Underlying().(*types.Slice); !isSlice {
+				continue
+			}
+			if k, isK := r.(*ssa.Const); isK && k.IsNil() {
+				continue
+			}
+			if in := chanRecvBehind(c.P, r, 3, map[ssa.Value]bool{}); in != nil {
+				c.Violation("order:loader.load:completion-order", in.Pos(), "result %d of loader.load is built from values received from a channel (or a map iteration) in %s: the fractions come back in the order in which their goroutines finished, not in the order of their names — after an unclean stop with two unsealed fractions the older, larger one can end up behind the younger one: Load then seals the younger and writes into the older, and retention deletes the younger first", i, FuncName(in.Parent()))
+			} else {
+				c.Site(ret.Pos(), "result %d of loader.load keeps the order of the sorted file names (no channel or map iteration in its derivation)", i)
+			}
+		}
+	}
+}
+
+// reachFrom: the repo functions that run on the goroutine that runs root — static callees, closures and
+// function values created on the way (they may be called back by a helper such as util.RunEvery), but not
+// the targets of go statements: those run elsewhere.
+func reachFrom(p *Prog, root *ssa.Function) map[*ssa.Function]bool {
+	seen := map[*ssa.Function]bool{}
+	var visit func(f *ssa.Function)
+	visit = func(f *ssa.Function) {
+		if f == nil || f.Blocks == nil || seen[f] || !p.InRepo(f) {
+			return
+		}
+		seen[f] = true
+		spawned := map[ssa.Value]bool{}
+		for _, b := range f.Blocks {
+			for _, in := range b.Instrs {
+				if g, ok := in.(*ssa.Go); ok {
+					spawned[g.Call.Value] = true
+				}
+			}
+		}
+		for _, b := range f.Blocks {
+			for _, in := range b.Instrs {
+				if _, isGo := in.(*ssa.Go); isGo {
+					continue
+				}
+				if cl, ok := in.(ssa.CallInstruction); ok {
+					visit(StaticCallee(cl))
+				}
+				for _, op := range in.Operands(nil) {
+					switch x := (*op).(type) {
+					case *ssa.Function:
+						visit(x)
+					case *ssa.MakeClosure:
+						if !spawned[x] {
+							if fn, ok := x.Fn.(*ssa.Function); ok {
+								visit(fn)
+							}
+						}
+					}
+				}
+			}
+		}
+	}
+	visit(root)
+	return seen
+}
+
+// goRoots: the functions started by go statements of non-test repo code.
+func goRoots(p *Prog) map[*ssa.Function]*ssa.Go {
+	out := map[*ssa.Function]*ssa.Go{}
+	for _, f := range p.Funcs {
+		if !p.InRepo(f) {
+			continue
+		}
+		for _, b := range f.Blocks {
+			for _, in := range b.Instrs {
+				g, ok := in.(*ssa.Go)
+				if !ok {
+					continue
+				}
+				var t *ssa.Function
+				switch x := g.Call.Value.(type) {
+				case *ssa.Function:
+					t = x
+				case *ssa.MakeClosure:
+					t, _ = x.Fn.(*ssa.Function)
+				}
+				if t != nil {
+					out[t] = g
+				}
+			}
+		}
+	}
+	return out
+}
+
+// oneMaintenanceGoroutine (C18.10): Cleaner.generations and Cleaner.lastGen are written without a lock; that is
+// sound only while every writer runs on one goroutine. The writers are read off the code (stores into the
+// fields or into elements of the slice); of the goroutines the repo starts, exactly one may reach a writer.
+func oneMaintenanceGoroutine(c *Ctx) {
+	writers := map[*ssa.Function]bool{}
+	for _, f := range c.P.FuncsInPkg("cache") {
+		for _, b := range f.Blocks {
+			for _, in := range b.Instrs {
+				st, ok := in.(*ssa.Store)
+				if !ok {
+					continue
+				}
+				if DerivesFromNoCall(st.Addr, func(v ssa.Value) bool {
+					return IsFieldAddr(v, "cache.Cleaner", "generations") || IsFieldAddr(v, "cache.Cleaner", "lastGen")
+				}) {
+					writers[f] = true
+				}
+			}
+		}
+	}
+	// constructors build a Cleaner nobody else sees yet
+	for f := range writers {
+		if f.Signature.Recv() == nil {
+			delete(writers, f)
+		}
+	}
+	if len(writers) == 0 {
+		c.Undecided("confine:Cleaner:no-writers", token.NoPos, "no method of cache.Cleaner writes generations / lastGen any more")
+		return
+	}
+	var roots []*ssa.Function
+	gos := goRoots(c.P)
+	for r := range gos {
+		for f := range reachFrom(c.P, r) {
+			if writers[f] {
+				roots = append(roots, r)
+				break
+			}
+		}
+	}
+	c.Count("go_statements", len(gos))
+	c.Count("unlocked_writers", len(writers))
+	switch {
+	case len(roots) == 0:
+		c.Undecided("confine:Cleaner:no-goroutine", token.NoPos, "no goroutine started by the repo reaches the writers of Cleaner.generations; the single-goroutine argument cannot be shown")
+	case len(roots) == 1:
+		c.Site(gos[roots[0]].Pos(), "the %d methods that write Cleaner.generations / lastGen without a lock are reached from one goroutine only (%s)", len(writers), FuncName(roots[0]))
+	default:
+		for _, r := range roots {
+			c.Violation("confine:Cleaner.generations:"+FuncName(r), gos[r].Pos(), "goroutine %s reaches a method that writes Cleaner.generations / lastGen, and so do %d other goroutine(s): these fields are written without a lock, which is sound only on a single maintenance goroutine — a rotation that appends a generation while another goroutine compacts the list loses the new generation, and everything loaded afterwards is never accounted, marked stale or evicted", FuncName(r), len(roots)-1)
+		}
+	}
+}
+
+// mapKeyUse: an instruction that uses v — or a string / struct built from it — as the key of a map access,
+// in v's function or in a repo function it is passed to (to the given depth).
+func mapKeyUse(p *Prog, v ssa.Value, depth int, seen map[ssa.Value]bool) ssa.Instruction {
+	if v == nil || seen[v] {
+		return nil
+	}
+	seen[v] = true
+	refs := v.Referrers()
+	if refs == nil {
+		return nil
+	}
+	for _, r := range *refs {
+		switch x := r.(type) {
+		case *ssa.Lookup:
+			if x.Index == v {
+				if _, isMap := x.X.Type().Underlying().(*types.Map); isMap {
+					return x
+				}
+			}
+		case *ssa.MapUpdate:
+			if x.Key == v {
+				return x
+			}
+		case *ssa.BinOp:
+			if x.Op == token.ADD {
+				if in := mapKeyUse(p, x, depth, seen); in != nil {
+					return in
+				}
+			}
+		case *ssa.Phi, *ssa.Convert, *ssa.ChangeType, *ssa.MakeInterface:
+			if in := mapKeyUse(p, x.(ssa.Value), depth, seen); in != nil {
+				return in
+			}
+		case *ssa.Store:
+			if x.Val != v {
+				continue
+			}
+			// a local variable, or a field of a local struct that becomes the key
+			var root ssa.Value = x.Addr
+			if fa, ok := root.(*ssa.FieldAddr); ok {
+				root = fa.X
+			}
+			if a, ok := root.(*ssa.Alloc); ok {
+				for _, rr := range *a.Referrers() {
+					if l, ok := rr.(*ssa.UnOp); ok && l.Op == token.MUL {
+						if in := mapKeyUse(p, l, depth, seen); in != nil {
+							return in
+						}
+					}
+				}
+				if fa, ok := x.Addr.(*ssa.FieldAddr); ok {
+					_ = fa
+				}
+			}
+			if x.Addr != root {
+				for _, rr := range *x.Addr.Referrers() {
+					if l, ok := rr.(*ssa.UnOp); ok && l.Op == token.MUL {
+						if in := mapKeyUse(p, l, depth, seen); in != nil {
+							return in
+						}
+					}
+				}
+			}
+		case ssa.CallInstruction:
+			if depth == 0 {
+				continue
+			}
+			h := StaticCallee(x)
+			if h == nil || h.Blocks == nil || !p.InRepo(h) {
+				continue
+			}
+			for i, a := range x.Common().Args {
+				if a == v && i < len(h.Params) {
+					if in := mapKeyUse(p, h.Params[i], depth-1, seen); in != nil {
+						return in
+					}
+				}
+			}
+		}
+	}
+	return nil
+}
+
+// hintOnlyNarrows (C13.13 = C02.15): parser.GetHint returns the leading fragment of a pattern — enough to pick the
+// token blocks that can hold a match, not enough to tell two patterns apart. Its value never becomes (part of)
+// a map key: a memo of resolved TIDs keyed by field and hint gives `k:ab*c` the answer of `k:ab*d`.
+func hintOnlyNarrows(c *Ctx) {
+	n := 0
+	for _, fn := range c.P.Funcs {
+		if !c.P.InRepo(fn) {
+			continue
+		}
+		for _, call := range CallsIn(fn, Callee("parser.GetHint")) {
+			v := call.Value()
+			if v == nil {
+				continue
+			}
+			n++
+			if in := mapKeyUse(c.P, v, 2, map[ssa.Value]bool{}); in != nil {
+				c.Violation("hint:"+FuncName(fn)+":map-key", in.Pos(), "%s uses the hint of a token expression (parser.GetHint: the pattern's leading fragment only) as a map key in %s: two different expressions on the same field with the same leading text — `k:ab*c` and `k:ab*d`, two ranges, a pattern and its negated refinement — share the entry, and the second is answered with the first one's tokens", FuncName(fn), FuncName(in.Parent()))
+			} else {
+				c.Site(call.Pos(), "%s uses the hint to narrow or to report, not to identify the expression", FuncName(fn))
+			}
+		}
+	}
+	if n == 0 {
+		c.Site(token.NoPos, "parser.GetHint is not called")
+	}
+}
+
+// parsedAgainstCurrentMapping (C12.11): the AST a store searches with was parsed by this request against the
+// mapping the provider reports now: every non-nil AST that GrpcV1.parseQuery returns derives from a call of
+// parser.ParseSeqQL / parser.ParseQuery whose mapping argument comes from GetMapping() in the same call, or
+// — if it is taken from somewhere else (a memo) — the key of that lookup derives from GetMapping() too.
+func parsedAgainstCurrentMapping(c *Ctx) {
+	fn := c.Fn("(*storeapi.GrpcV1).parseQuery")
+	if fn == nil {
+		return
+	}
+	isParse := func(cl ssa.CallInstruction) bool {
+		n := CallName(cl)
+		return n == "parser.ParseSeqQL" || n == "parser.ParseQuery"
+	}
+	fromMapping := func(v ssa.Value) bool {
+		return c.P.DerivesFromIP(v, func(x ssa.Value) bool {
+			cl, ok := x.(ssa.CallInstruction)
+			return ok && strings.HasSuffix(CallName(cl), ").GetMapping")
+		})
+	}
+	for _, b := range fn.Blocks {
+		ret, ok := b.Instrs[len(b.Instrs)-1].(*ssa.Return)
+		if !ok || len(ret.Results) == 0 {
+			continue
+		}
+		for _, o := range c.P.Origins(ret.Results[0], nil, 2, isParse) {
+			if k, isK := o.Val.(*ssa.Const); isK && k.IsNil() {
+				continue
+			}
+			var parse ssa.CallInstruction
+			DerivesFrom(o.Val, func(x ssa.Value) bool {
+				if cl, ok := x.(ssa.CallInstruction); ok && isParse(cl) {
+					parse = cl
+					return true
+				}
+				return false
+			})
+			if parse != nil {
+				args := parse.Common().Args
+				if len(args) >= 2 && fromMapping(args[1]) {
+					c.Site(parse.Pos(), "the query is parsed against the mapping the provider reports at the time of the request")
+				} else {
+					c.Violation("parse:parseQuery:mapping-arg", parse.Pos(), "parseQuery parses against a mapping that is not the result of GetMapping() of this request")
+				}
+				continue
+			}
+			// not parsed here: a remembered AST. Acceptable only when what it is looked up by includes the mapping.
+			keyed := false
+			DerivesFrom(o.Val, func(x ssa.Value) bool {
+				switch y := x.(type) {
+				case *ssa.Lookup:
+					keyed = keyed || fromMapping(y.Index)
+				case ssa.CallInstruction:
+					for _, a := range y.Common().Args {
+						keyed = keyed || fromMapping(a)
+					}
+				}
+				return false
+			})
+			if keyed {
+				c.Site(ret.Pos(), "a remembered AST is looked up by a key that includes the current mapping")
+			} else {
+				c.Violation("parse:parseQuery:remembered-ast", ret.Pos(), "parseQuery can return an AST (%s) that was not parsed in this call and is not looked up by the current mapping: the mapping decides how a value is split into terms and which fields may be queried, and it is reloaded at run time — after a reload that changes a field's type the same query text keeps being searched with the AST of the old mapping", Short(o.Val.String()))
+			}
+		}
+	}
+}
+
+// queuedLIDsEnterOneByOne (C02.16): the LIDs queued for a token may repeat (the text tokenizer emits a token per
+// occurrence, so a document with "error ... error" queues its LID twice); the merged list must not. In
+// frac.mergeSorted the parameter that receives the queued batch (the one the caller fills from
+// TokenLIDs.getQueuedLIDs) is never appended to the result as a whole — no append(result, batch...) of it or of a
+// sub-slice: its elements are appended one at a time, behind a comparison with the value appended before.
+func queuedLIDsEnterOneByOne(c *Ctx) {
+	fn := c.Fn("frac.mergeSorted")
+	if fn == nil {
+		return
+	}
+	// which parameter is the queued batch
+	var batch *ssa.Parameter
+	for _, caller := range c.P.FuncsInPkg("frac") {
+		for _, call := range CallsIn(caller, Callee("frac.mergeSorted")) {
+			for i, a := range call.Common().Args {
+				if i < len(fn.Params) && DerivesFrom(a, func(v ssa.Value) bool {
+					cl, ok := v.(ssa.CallInstruction)
+					return ok && CallName(cl) == "(*frac.TokenLIDs).getQueuedLIDs"
+				}) {
+					batch = fn.Params[i]
+				}
+			}
+		}
+	}
+	if batch == nil {
+		c.Undecided("merge:mergeSorted:no-batch", fn.Pos(), "no caller hands the result of TokenLIDs.getQueuedLIDs to frac.mergeSorted any more")
+		return
+	}
+	fromBatch := func(v ssa.Value) bool {
+		return DerivesFromNoCall(v, func(x ssa.Value) bool { return x == ssa.Value(batch) })
+	}
+	n := 0
+	for _, ap := range CallsIn(fn, Callee("builtin.append")) {
+		args := ap.Common().Args
+		if len(args) != 2 {
+			continue
+		}
+		// append(result, v) is lowered to a one-element array that is sliced; append(result, s...) passes s itself
+		elems, spread := variadicElems(args[1])
+		if spread {
+			if !fromBatch(args[1]) {
+				continue
+			}
+			n++
+			{
+				c.Violation("merge:mergeSorted:batch-appended-whole", ap.Pos(), "frac.mergeSorted appends the queued batch (parameter %s) to the result as a whole: the queue may hold the same LID twice (one entry per occurrence of the token in the document), and only the element-wise path drops the repeat — the token's list then carries the document twice, searches with total, aggregations and the histogram count it twice, and sealing writes the duplicate", batch.Name())
+				continue
+			}
+		}
+		isBatchElem := false
+		for _, e := range elems {
+			isBatchElem = isBatchElem || fromBatch(e)
+		}
+		if !isBatchElem {
+			continue
+		}
+		n++
+		guarded := false
+		for _, f := range FactsAtInstr(ap.(ssa.Instruction)) {
+			if bo, ok := f.Cond.(*ssa.BinOp); ok && (bo.Op == token.EQL || bo.Op == token.NEQ) {
+				guarded = true
+			}
+		}
+		if guarded {
+			c.Site(ap.Pos(), "an element of the queued batch is appended behind a comparison with the previous value")
+		} else {
+			c.Violation("merge:mergeSorted:batch-element-unguarded", ap.Pos(), "frac.mergeSorted appends an element of the queued batch without comparing it with the value appended before: a LID queued twice stays twice in the token's list")
+		}
+	}
+	if n == 0 {
+		c.Undecided("merge:mergeSorted:no-append", fn.Pos(), "frac.mergeSorted no longer appends elements of the queued batch")
+	}
+}
+
+// variadicElems: the values passed for a variadic parameter. A call f(a, x, y) is lowered to a new array
+// holding x and y that is sliced; f(a, s...) passes s (spread = true).
+func variadicElems(arg ssa.Value) (elems []ssa.Value, spread bool) {
+	sl, ok := arg.(*ssa.Slice)
+	if !ok {
+		return nil, true
+	}
+	al, ok := sl.X.(*ssa.Alloc)
+	if !ok || al.Comment != "varargs" {
+		return nil, true
+	}
+	for _, r := range *al.Referrers() {
+		ia, ok := r.(*ssa.IndexAddr)
+		if !ok {
+			continue
+		}
+		for _, rr := range *ia.Referrers() {
+			if st, ok := rr.(*ssa.Store); ok && st.Addr == ssa.Value(ia) {
+				elems = append(elems, st.Val)
+			}
+		}
+	}
+	return elems, false
+}
+
+// decodedOwnsItsMemory (C03.13): what Chunks.unpack leaves in the Chunks (which goes into the per-fraction cache)
+// is a copy: no slice field of the receiver is assigned a view of the scratch buffer the loader passes in and
+// reuses for the next block.
+func decodedOwnsItsMemory(c *Ctx) {
+	fn := c.Fn("(*frac/lids.Chunks).unpack")
+	if fn == nil {
+		return
+	}
+	var scratch []*ssa.Parameter
+	for _, p := range fn.Params[1:] {
+		if strings.HasSuffix(TypeStr(p.Type()), "unpackBuffer") {
+			scratch = append(scratch, p)
+		}
+	}
+	if len(scratch) == 0 {
+		c.Note("Chunks.unpack no longer takes a scratch buffer; the ownership rule has nothing to check")
+		c.Site(fn.Pos(), "Chunks.unpack has no scratch buffer parameter")
+		return
+	}
+	n := 0
+	for _, b := range fn.Blocks {
+		for _, in := range b.Instrs {
+			st, ok := in.(*ssa.Store)
+			if !ok {
+				continue
+			}
+			fa, ok := st.Addr.(*ssa.FieldAddr)
+			if !ok || fa.X != ssa.Value(fn.Params[0]) {
+				continue
+			}
+			if _, isSl := st.Val.Type().Underlying().(*types.Slice); !isSl {
+				continue
+			}
+			n++
+			_, fld, _, _ := FieldOf(fa)
+			view := DerivesFromNoCall(st.Val, func(v ssa.Value) bool {
+				for _, p := range scratch {
+					if v == ssa.Value(p) {
+						return true
+					}
+				}
+				return false
+			})
+			if view {
+				c.Violation("own:Chunks.unpack:"+fld, st.Pos(), "Chunks.unpack stores a view of the loader's scratch buffer into %s: the Chunks goes into the LIDs cache while the loader reuses the buffer for the next block, so a cached block is overwritten by the contents of the block read after it — the first answer is right, every answer served from the cache is not", fld)
+			} else {
+				c.Site(st.Pos(), "Chunks.%s is a copy, not a view of the scratch buffer", fld)
+			}
+		}
+	}
+	if n == 0 {
+		c.Undecided("own:Chunks.unpack:none", fn.Pos(), "Chunks.unpack no longer assigns the slices of the receiver")
+	}
+}
+
+// startBlockPerTID (C03.14): the LIDs block an iterator starts in is looked up for its own tid. In
+// sealedTokenIndex.GetLIDsFromTIDs every value stored into the table of start blocks comes out of a call that is
+// given the tid of that position (first block for descending, last block for ascending order — which one is
+// right depends on the order, and a neighbour's block is right for one of them only).
+func startBlockPerTID(c *Ctx) {
+	fn := c.Fn("(*frac.sealedTokenIndex).GetLIDsFromTIDs")
+	if fn == nil {
+		return
+	}
+	n := 0
+	for _, b := range fn.Blocks {
+		for _, in := range b.Instrs {
+			st, ok := in.(*ssa.Store)
+			if !ok {
+				continue
+			}
+			ia, ok := st.Addr.(*ssa.IndexAddr)
+			if !ok {
+				continue
+			}
+			bt, ok := st.Val.Type().Underlying().(*types.Basic)
+			if !ok || bt.Kind() != types.Uint32 {
+				continue
+			}
+			if _, isMk := stripSliceRoot(ia.X).(*ssa.MakeSlice); !isMk {
+				continue
+			}
+			n++
+			// the tid of this position: an element of the tids parameter
+			isTid := func(v ssa.Value) bool {
+				return DerivesFromNoCall(v, func(x ssa.Value) bool { return x == ssa.Value(fn.Params[1]) })
+			}
+			viaLookup := false
+			DerivesFrom(st.Val, func(v ssa.Value) bool {
+				cl, ok := v.(ssa.CallInstruction)
+				if !ok {
+					return false
+				}
+				for _, a := range cl.Common().Args {
+					if isTid(a) {
+						viaLookup = true
+					}
+				}
+				return false
+			})
+			direct := false
+			if cl, ok := st.Val.(ssa.CallInstruction); ok {
+				for _, a := range cl.Common().Args {
+					direct = direct || isTid(a)
+				}
+			}
+			if direct || (viaLookup && !derivesFromLoadOfSameTable(st.Val, ia.X)) {
+				c.Site(st.Pos(), "the start block of a tid is the result of a lookup with that tid")
+			} else {
+				c.Violation("prov:GetLIDsFromTIDs:start-block", st.Pos(), "GetLIDsFromTIDs can take the start block of a tid from %s instead of looking it up for that tid: the previous tid's block is the right place to start for one iteration order only — for the other one the iterator of a token whose postings continue into later blocks starts too early or too late and the continuation is never visited", Short(st.Val.String()))
+			}
+		}
+	}
+	if n == 0 {
+		c.Undecided("prov:GetLIDsFromTIDs:no-table", fn.Pos(), "GetLIDsFromTIDs no longer fills a table of start blocks")
+	}
+}
+
+func stripSliceRoot(v ssa.Value) ssa.Value {
+	for {
+		switch x := v.(type) {
+		case *ssa.Slice:
+			v = x.X
+		case *ssa.Phi:
+			if len(x.Edges) == 1 {
+				v = x.Edges[0]
+				continue
+			}
+			return v
+		default:
+			return v
+		}
+	}
+}
+
+// derivesFromLoadOfSameTable: v is (a phi over) an element read back from the table it is stored into.
+func derivesFromLoadOfSameTable(v, table ssa.Value) bool {
+	return DerivesFromNoCall(v, func(x ssa.Value) bool {
+		u, ok := x.(*ssa.UnOp)
+		if !ok || u.Op != token.MUL {
+			return false
+		}
+		ia, ok := u.X.(*ssa.IndexAddr)
+		return ok && ia.X == table
+	})
 }
